@@ -256,8 +256,12 @@ def commitResume (env : Env) (d : Disk) (h : Handle) (p : Pending) : Disk × Han
   | (d', .fail e) => (d', h0, .err e)
   | (d', .wrote c) => (d', { h0.flatten with upstream := c }, .ok true)
   | (d', .stale up) =>
+    -- `if newContents.lock != upstream.lock` is how updateManifest tells failure from success: when the
+    -- manifest on disk already carries exactly the lock of newContents (same root, same table set, written
+    -- by somebody else) the commit is taken to have succeeded although nothing was written
+    if up.lock == p.new.lock then (d', { h0.flatten with upstream := p.new }, .ok true)
     -- handleOptimisticLockFailure
-    if !canOpen d' h0 up.specs then (d', h0, .err .tableNotFound)
+    else if !canOpen d' h0 up.specs then (d', h0, .err .tableNotFound)
     else
       let h1 := h0.rebaseTo up
       if p.last != up.root then (d', h1, .ok false)            -- errOptimisticLockFailedRoot
